@@ -251,10 +251,12 @@ func float1(r *rand.Rand, cls string) float64 {
 		return float64(r.Intn(9)) / 4
 	case "neg":
 		// negative branch lengths are legal Newick (neighbour-joining trees have them); -1 itself is excluded by Float
+		// random mantissas: sums of a few of them never hit -1 exactly (a merged branch of length exactly -1
+		// would be indistinguishable from "no length", the sentinel of the data structure)
 		if r.Intn(3) == 0 {
-			return -float64(1+r.Intn(7)) / 8 // -0.125 .. -0.875: exact, never the sentinel
+			return -(0.01 + 0.9*r.Float64())
 		}
-		return float64(r.Intn(17)) / 8
+		return 2 * r.Float64()
 	case "any":
 		return math.Float64frombits(r.Uint64())
 	case "edge":
